@@ -1,4 +1,5 @@
 import HapModel.Drv.C01
+import HapModel.Drv.C13
 import HapModel.Drv.C14
 import HapModel.Drv.C18
 namespace Drv
@@ -11,6 +12,7 @@ def dispatch1 (op : String) (j : Json) : R Json :=
   | "karyogram" => hKaryogram j
   | "getSegment" => hGetSegment j
   | "simGen" => hSimGen j
+  | "qc" => hQC j
   | _ => throw s!"unknown op {op}"
 
 /-- {"op":"batch","reqs":[…]} → {"resps":[…]} -/
